@@ -376,9 +376,13 @@ class Run:
         ctx = self.ctx
         r, members = execute(spec, ctx.rng)
         rk, cfg, cm = spec["rk"], spec["cfg"], spec["cm"]
-        self.cases.append("CApi %s %s %s %s %s" % (
+        # the class raised is compared too when nothing can fail before the header check
+        raised = "None"
+        if r[0] == "err" and (rk == "jws" or rk == "jws7797" or (members and members[0] and members[0][0].get("enc") == "A128GCM")):
+            raised = "(Some %s)" % c_exn(exn_class(r[1]))
+        self.cases.append("CApi %s %s %s %s %s %s" % (
             RK[rk], c_cfg(cfg), c_bool(cm), c_list([c_list([c_hdr(p) for p in parts]) for parts in members]),
-            c_bool(r[0] == "ok")))
+            c_bool(r[0] == "ok"), raised))
         self.meta.append(spec)
         ctx.note_case(("api", json.dumps(spec, sort_keys=True, default=str)))
         self.count("api:%s:%s" % (spec["entry"], "ok" if r[0] == "ok" else "rejected"))
@@ -582,9 +586,9 @@ def gen_function_level(run, ctx, rks):
                            "allowed": [alg, "A128GCM"]} if (alg and alg not in run.recommended) else None
             for n in names:
                 for v in ALL_VALUES:
-                    if ctx.quick and jwe_like and alg not in ("dir", "PBES2-HS256+A128KW") and rng.random() < 0.8:
+                    if ctx.quick and jwe_like and alg != "dir" and rng.random() < (0.5 if alg.startswith("PBES2") else 0.85):
                         continue
-                    if ctx.quick and rk == "jwed" and rng.random() < 0.6:
+                    if ctx.quick and rk == "jwed" and rng.random() < 0.65:
                         continue
                     h = base_header(rk, rng, alg)
                     h[n] = copy.deepcopy(v)
@@ -593,7 +597,7 @@ def gen_function_level(run, ctx, rks):
                     if rng.random() < ctx.scale(12, 100) / 100.0:
                         run.fn_case(rk, rng.choice(fixed[1:]), cm, h)
         # (2) random headers under random configurations
-        for _ in range(ctx.scale(500, 12000)):
+        for _ in range(ctx.scale(350, 12000)):
             cfg = rng.choice(fixed) if rng.random() < 0.3 else rand_cfg(rk, rng)
             h = base_header(rk, rng)
             if cfg and rng.random() < 0.6:
